@@ -101,16 +101,20 @@ def body_models(draw):
       s += '<joint type="%s"/>' % j
     mode = draw(st.sampled_from(['geom', 'geoms', 'inertial', 'both']))
     if mode in ('inertial', 'both'):
-      # orientation spelled as quat only: any other spelling (euler/axisangle/...) hits the known-finding candidate
-      # 'apply-inertial-alt-orientation' (see probe in main); excluded here by construction.
+      # every spelling of the inertial orientation (the alternatives used to make apply_body_theta_inertia produce a spec that
+      # does not compile; repaired by a fix: commit, so they are part of the generated stream)
       spelling = draw(st.sampled_from(['quat', 'quat', 'euler', 'axisangle']))
-      if spelling != 'quat':
-        EXCLUDED['inertial-alt-orientation'] += 1      # counted; replaced by the quat spelling
       q = np.array([num(-1, 1), num(-1, 1), num(-1, 1), num(-1, 1)])
       q = q / np.linalg.norm(q) if np.linalg.norm(q) > 0.1 else np.array([1.0, 0, 0, 0])
-      s += '<inertial pos="%g %g %g" mass="%g" diaginertia="%g %g %g" quat="%.17g %.17g %.17g %.17g"/>' % (
-          num(-.2, .2), num(-.2, .2), num(-.2, .2), num(.1, 5), num(.05, .1), num(.05, .1), num(.05, .1),
-          q[0], q[1], q[2], q[3])
+      if spelling == 'quat':
+        orient = 'quat="%.17g %.17g %.17g %.17g"' % (q[0], q[1], q[2], q[3])
+      elif spelling == 'euler':
+        orient = 'euler="%g %g %g"' % (num(-3, 3), num(-3, 3), num(-3, 3))
+      else:
+        ax = q[1:] / np.linalg.norm(q[1:]) if np.linalg.norm(q[1:]) > 1e-3 else np.array([0.0, 0.0, 1.0])
+        orient = 'axisangle="%.17g %.17g %.17g %g"' % (ax[0], ax[1], ax[2], num(-3, 3))
+      s += '<inertial pos="%g %g %g" mass="%g" diaginertia="%g %g %g" %s/>' % (
+          num(-.2, .2), num(-.2, .2), num(-.2, .2), num(.1, 5), num(.05, .1), num(.05, .1), num(.05, .1), orient)
     if mode != 'inertial':
       for _ in range(2 if mode == 'geoms' else 1):
         t = draw(st.sampled_from(['sphere', 'box', 'capsule', 'ellipsoid']))
